@@ -37,7 +37,7 @@ CFG = {
                   "(CSI wraps mod 2^64, DCS >= 2^63 => error + nil parameters). Action bodies (collect ... csiDispatch, hook) and the bodies of readRune and print (incl. the Print width) are interpreted from statement skeletons regenerated from the source; "
                   "the interpretation equals the model functions for every reader state, the correspondence driver executes the interpreted bodies with the regenerated table, "
                   "and every Print of every stream is one oracle cluster or a piece cut at a read boundary / in front of an invalid byte (print_takes_one_cluster), with StringWidth of its grapheme (print_width).",
-    "level_note": "Proved: see notes/C02.md tables (Props/C02, C02Text, C02Refine, C02Acts, C02Stdlib, C08Payload, Witness/F102: 98 theorems). Round 4: readRune_body_eq_model / print_body_eq_model / csiDispatch_body / hook_body are proved by evaluating the interpreter on the "
+    "level_note": "Harness (round 4): a panic of the parser goroutine (run or the timer callback) is handed to the harness by the deferred yield points of the verification build and ends the case with the item ! (FAIL panic with the input named) instead of taking the harness down. Proved: see notes/C02.md tables (Props/C02, C02Text, C02Refine, C02Acts, C02Stdlib, C08Payload, Witness/F102: 98 theorems). Round 4: readRune_body_eq_model / print_body_eq_model / csiDispatch_body / hook_body are proved by evaluating the interpreter on the "
                   "regenerated bodies (no transcribed skeleton copy: a meaning-preserving reorder does not alarm, a meaning-changing one fails exactly that theorem; reader_skeleton_recognised = fully recognised). "
                   "Props/C08Payload (shared with C08) is in the module list: the list model cannot tell a fresh slice from one truncated in place or taken from a pool with its old length, so 'exact payload / parameters' also needs delivered_payloads_not_recycled and handover_takes_fresh_storage (seeded changes C02-m3, C02-m5 break these). "
                   "Validated by run-time contract check: the meaning of the bufio/utf8 stdlib calls (StdlibContract, every clause on every case against the real stdlib). "
